@@ -1037,3 +1037,219 @@ def buckets(case, ans):
             out.append("answer:has-None")
     out.append("lines:%d" % (min(50, len(case["lines"])) // 10 * 10))
     return out
+
+
+# ================================================================== two live instances (stream `pair`, see props/pairlib.py)
+# Appended as wrappers around the functions above, so that the single-instance streams and their seeds stay as they were.
+# A pair case: two configs from one template (parents coincide in line number and text, descendants differ), BOTH parsed
+# first, then the SAME search (all APIs, recursive and not) asked of A, B, A (...); every answer is judged by the oracle
+# above against a brute-force scan of the tree of the instance that was asked, and compared with the model's answer for
+# that instance alone.  The last observations may be: an uncommitted insert on A (A must refuse) followed by the search on
+# B (B must answer: search_safe is per instance).
+from props import pairlib as PL  # noqa: E402
+
+
+def pair_cfgs(rng):
+    a = rand_cfg(rng)
+    if rng.random() < 0.85 or not a["lines"]:
+        a = dict(a, lines=rand_tree_lines(rng, a["delims"]), ignore_blank=a["ignore_blank"] and rng.random() < 0.5)
+    r = rng.random()
+    if r < 0.08:
+        lines, muts = list(a["lines"]), ["identical"]
+    elif r < 0.14:
+        lines, muts = rand_tree_lines(rng, a["delims"]), ["unrelated"]
+    else:
+        lines, muts = PL.variant(rng, a["lines"], POOL)
+    syntax, ign, delims = PL.option_variant(rng, a["syntax"], a["ignore_blank"], a["delims"], T.SYNTAXES, T.DELIM_SETS)
+    return [a, {"syntax": syntax, "ignore_blank": ign, "delims": delims, "lines": lines}], muts
+
+
+def mk_pair(cfgs, plan, queries, muts=(), origin="pair"):
+    """queries[k] = the query of observation k (dict api/pats/flags[/form keys]); plan[k] = the instance it is asked of"""
+    subs = []
+    for k, (i, q) in enumerate(zip(plan, queries)):
+        s = mk(cfgs[i], q, origin)
+        s["_same"] = q.get("_same")
+        subs.append(s)
+    case = {"pair": True, "cfgs": cfgs, "plan": list(plan), "subs": subs, "mutations": list(muts), "_origin": origin,
+            # the keys the evidence code reads on every case
+            "lines": cfgs[0]["lines"], "pats": subs[0]["pats"], "api": subs[0]["api"], "flags": subs[0]["flags"]}
+    case["req"] = PL.wrap_req([s["req"] for s in subs])
+    return case
+
+
+RECURSIVE_APIS = ["p2", "p2", "c2", "c2", "w2", "w2", "wl", "hc", "hc", "rc", "oc"]
+
+
+def rand_pair(rng):
+    cfgs, muts = pair_cfgs(rng)
+    plan = PL.rand_plan(rng)
+    keptch = []
+    for c in cfgs:
+        kept = T.ref_kept(c["lines"], c["syntax"] == "ios", c["ignore_blank"])
+        keptch.append((kept, ref_children(kept, T.cfg_delims(c["syntax"], c["delims"]))[1]))
+    nq = rng.choice([1, 1, 1, 2, len(plan)])
+    base = []
+    for j in range(nq):
+        src = rng.randrange(2)                   # the chain the expressions are drawn from lives in A or in B
+        kept, ch = keptch[src]
+        r = rng.random()
+        if r < 0.55:
+            q = rand_query(rng, cfgs[src], kept, ch, rng.choice(RECURSIVE_APIS))
+            if "c" in ACCEPTS[q["api"]] and rng.random() < 0.8:
+                q["flags"] = "".join(sorted(set(q["flags"]) | {"c"}))
+        elif r < 0.9:
+            q = rand_query(rng, cfgs[src], kept, ch)
+        else:
+            q = rand_form_query(rng, cfgs[src], kept, ch)
+            q["pend"] = False
+            if not is_form(q):
+                q = rand_query(rng, cfgs[src], kept, ch)
+        q["_same"] = j
+        base.append(q)
+    queries = [dict(base[k % nq]) for k in range(len(plan))]
+    if rng.random() < 0.12:
+        # an uncommitted insert on one instance, then the other instance is asked again
+        i = plan[-1]
+        kept = keptch[i][0]
+        pq = dict(queries[-1], pend=True, pend_at=rng.randrange(len(kept) + 1), pend_text=rng.choice(["zz", " zz", "  zz"]), _same=None)
+        plan = plan + [i, 1 - i]
+        queries = queries + [pq, dict(base[0])]
+    return mk_pair(cfgs, plan, queries, muts)
+
+
+def pair_cases(rng, tier):
+    for _ in range({"quick": 900, "thorough": 30000, "search": 300}[tier]):
+        yield rand_pair(rng)
+
+
+def impl_pair(case):
+    quiet_ccp()
+    parses = []
+    for i, c in enumerate(case["cfgs"]):
+        # (auto_commit is left at its default unless an uncommitted insert is to stay pending on this instance)
+        pend = any(s.get("pend") for s, j in zip(case["subs"], case["plan"]) if j == i)
+        try:
+            parses.append(T.parse_impl(dict(c, factory=False, auto_commit=False if pend else None)))
+        except BaseException as e:  # noqa: BLE001
+            if type(e).__name__ == "CaseTimeout":
+                raise
+            return "parse-err:" + type(e).__name__
+    tags = PL.tags_for([s["req"] for s in case["subs"]])
+    parts = []
+    for k, sub in enumerate(case["subs"]):
+        sub["omit"] = case.get("omit")
+        p = parses[case["plan"][k]]
+        parts.append((tags[k], observe(p, sub)))
+    return PL.join_parts(parts)
+
+
+def _sub_compare(impl_part, model_part):
+    return impl_part.rsplit("&", 1)[0] == model_part
+
+
+def pair_neighbours(case, rng):
+    for _ in range(120):
+        a = case["cfgs"][0]
+        lines, muts = PL.variant(rng, a["lines"], POOL)
+        cfgs = [a, dict(case["cfgs"][1], lines=lines)]
+        qs = [{k: s[k] for k in ("api", "pats", "flags") + FORM_KEYS + ("pend_at", "pend_text", "_same") if k in s} for s in case["subs"]]
+        yield mk_pair(cfgs, case["plan"], qs, muts)
+
+
+def _pair_describe(case):
+    for s in case["subs"]:
+        s["omit"] = case.get("omit")
+    return {"two_live_instances": "both configs are parsed first, then the observations run in this order",
+            "A": {k: case["cfgs"][0][k] for k in ("syntax", "ignore_blank", "delims", "lines")},
+            "B": {k: case["cfgs"][1][k] for k in ("syntax", "ignore_blank", "delims", "lines")},
+            "B_differs_from_A_by": case.get("mutations"),
+            "observations": [dict({k: v for k, v in _single["describe"](s).items() if k not in ("lines", "syntax", "ignore_blank", "delims")},
+                                  instance="AB"[i]) for i, s in zip(case["plan"], case["subs"])]}
+
+
+def _pair_buckets(case, ans):
+    out = PL.buckets(case)
+    parts = PL.split_parts(ans) or []
+    for s, (_, text) in zip(case["subs"], parts):
+        out += ["pair:" + b for b in _single["buckets"](s, text) if b.startswith(("api:", "flag:c", "answer:"))]
+    return out
+
+
+_single = {"cases": cases, "impl": impl, "oracle": oracle, "compare": compare, "neighbours": neighbours, "known_id": known_id,
+           "nontrivial": nontrivial, "describe": describe, "buckets": buckets}
+
+
+def cases(rng, tier):  # noqa: F811
+    yield from _single["cases"](rng, tier)
+    orng = __import__("random").Random(rng.random())
+    for c in (pair_cases(rng, tier) if PL.enabled() else ()):
+        c["omit"] = orng.random() < 0.5
+        yield c
+
+
+def impl(case):  # noqa: F811
+    return impl_pair(case) if case.get("pair") else _single["impl"](case)
+
+
+def oracle(case, ans):  # noqa: F811
+    return PL.oracle(case, ans, _single["oracle"]) if case.get("pair") else _single["oracle"](case, ans)
+
+
+def compare(case, impl_ans, model_ans):  # noqa: F811
+    if case.get("pair"):
+        return PL.compare(impl_ans, model_ans, _sub_compare)
+    return _single["compare"](case, impl_ans, model_ans)
+
+
+def neighbours(case, rng):  # noqa: F811
+    return pair_neighbours(case, rng) if case.get("pair") else _single["neighbours"](case, rng)
+
+
+def known_id(case, failure):  # noqa: F811
+    return PL.known_id(case, failure, _single["known_id"]) if case.get("pair") else _single["known_id"](case, failure)
+
+
+def nontrivial(case):  # noqa: F811
+    if case.get("pair"):
+        return PL.shared_parents(case["cfgs"][0]["lines"], case["cfgs"][1]["lines"]) > 0 and any(_single["nontrivial"](s) for s in case["subs"])
+    return _single["nontrivial"](case)
+
+
+def describe(case):  # noqa: F811
+    return _pair_describe(case) if case.get("pair") else _single["describe"](case)
+
+
+def buckets(case, ans):  # noqa: F811
+    return _pair_buckets(case, ans) if case.get("pair") else _single["buckets"](case, ans)
+
+
+def observe(p, sub):
+    """the answer of impl() for the query of `sub`, asked of an instance that is already parsed"""
+    objs = list(p.objs)
+    dump = "|".join([T.lnums([o.parent for o in objs]), ";".join(T.lnums(o.children) for o in objs)])
+    try:
+        if sub.get("pend"):                      # an uncommitted ConfigList.insert(): search_safe is False from here on
+            p.config_objs.insert(min(sub.get("pend_at", 0), len(objs)), sub.get("pend_text", " zz"))
+        ans = run_query(p, sub, objs)
+    except BaseException as e:  # noqa: BLE001
+        if type(e).__name__ == "CaseTimeout":
+            raise
+        ans = "err:" + type(e).__name__
+    return dump + "&" + ans + "&" + wire.enc_strs([o.text for o in objs])
+
+
+RULE += (" PAIR STREAM (two LIVE instances; props/pairlib.py, channel `pair`): 900 (quick) cases hold two configs built from ONE template (the "
+         "tree generator above): B = A with 1-3 of {a child's text replaced, a child re-indented one level deeper / shallower, turned into a "
+         "comment, blanked, two children swapped, a child inserted / deleted / moved under another parent, a run of siblings pushed one level "
+         "down} (8 % identical, 6 % unrelated), so that parent lines coincide in (line number, text) -- line objects hash and compare by that "
+         "pair -- while their children / descendants differ; same or different syntax / ignore_blank_lines / comment delimiters. BOTH are "
+         "parsed first; then the SAME search (55 % a recursive API with recurse / all_children on, the rest any API, 10 % the other argument "
+         "forms; expressions drawn from a chain of A or of B; 1, 2 or one query per observation) is asked in the orders ABA, ABAB, BAB, "
+         "ABBA, AABA; 12 % end with an uncommitted insert on one instance (it must refuse) followed by the search on the other (it must "
+         "answer). Every answer is judged by the brute-force oracle on the tree of the instance that was asked, compared with the model's "
+         "answer for THAT instance alone, and an instance asked the same thing twice must answer the same. VERIF_NO_PAIR=1 leaves the stream out.")
+LEVEL_NOTE += (" Two live instances: the model is a function of one config (channel `pair` only carries ordinary requests; "
+               "Ccp.Drv.Pair.answers_get), so 'a search on one instance does not depend on other live instances' holds for the model by "
+               "construction and is MEASURED for the code by the pair stream (seeded change C04e -- an lru_cache on a BaseCfgLine method, shared "
+               "between instances because lines hash by (linenum, text), cleared at every bootstrap -- is reported by it and by nothing else).")
